@@ -345,6 +345,18 @@ Definition chk (c : heap * list value * list (fn * nat * bool * option obs_t)) :
                   {'case': c, 'observed': o['ok']})
   chk.cov['traces_validated_against_impl'] = len(coq)
   known = {k['key'] for k in common.load_known() if k['property'] == 'C04' and k.get('status') == 'known'}
+  me = [{'kind': kind, 'edits': edits} for kind in ('jit', 'remat', 'cond', 'switch') for edits in (['rm_flag'], ['rm_flag', 'rm_extra', 'rebind', 'add'], ['rebind', 'add'])]
+  for c, o in zip(me, common.run_impl('impl_c04.py', {'metadata_edits': me}, timeout=900)['metadata_edits']):
+    chk.count({'metadata_edits': c}, 'rm_flag' in c['edits'])
+    if 'err' in o:
+      # structure-changing edits are documented to be unsupported by cond / switch only when the branches disagree; here both branches are the same function
+      chk.violation('oracle', 'a function that edits the metadata of a Variable (%s) raised %s under nnx.%s' % (c['edits'], o['err'], c['kind']), {'case': c, 'msg': o.get('msg')})
+      continue
+    for i, r in enumerate(o['ok']):
+      if not (r['y_same'] and r['state_same'] and r['same_object']):
+        chk.violation('oracle', 'nnx.%s and the eager call differ after a function that edits the metadata of a Variable (%s), call %d: returned value, the Variable\'s value / metadata, or '
+                      'the caller\'s object is not the one carrying the change' % (c['kind'], c['edits'], i + 1), {'case': c, 'observed': r})
+        break
   pr = common.run_impl('impl_c04.py', {'probe': True})
   for key, what in (('F16-cached-partial-stale', 'nnx.cached_partial(nnx.jit(step), m) binds a clone of m: an attribute the caller adds to m between calls is ignored, and after the caller '
                      're-binds m.w later calls keep updating the old Variable (eager sees both)'),
